@@ -502,6 +502,13 @@ func parseTrailer(t *protocol.Trailer, buf []byte) (int, error) {
 		buf = buf[skip:]
 	}
 
+	// Trailer values are stored as they are scanned and a value is stored only
+	// once, so wait until the whole trailer block is buffered: a retried parse
+	// of a block that was incomplete would otherwise keep a truncated value.
+	if _, _, err := ReadRawHeaders(nil, buf); err != nil {
+		return 0, err
+	}
+
 	var s HeaderScanner
 	s.B = buf
 	s.DisableNormalizing = t.IsDisableNormalizing()
